@@ -52,7 +52,9 @@ def run(names):
         for prop in props:
             r = sh("REPO=%s %s/bin/check %s quick" % (wt, V, prop), env=dict(os.environ, VERIF_SECONDS=os.environ.get("VERIF_SECONDS", "30")))
             classes = re.findall(r"class=(\S+)", r.stdout)
+            fr = re.search(r"(\d+) of the (\d+) runs of the search failed", r.stdout)
             caught[prop] = {"exit": r.returncode, "classes": classes}
+            if fr: caught[prop]["failing_runs"] = [int(fr.group(1)), int(fr.group(2))]
         sh("git -C /repo worktree remove --force %s" % wt)
         meta["check_result"] = caught
         meta["caught"] = any(v["exit"] == 1 for v in caught.values())
